@@ -437,6 +437,7 @@ func EnumPaths(fn *ssa.Function, max int) (paths []*Path, overflow bool) {
 		conds  map[ssa.Value]bool
 	}
 	visited := map[*ssa.BasicBlock]bool{}
+	heads := LoopHeads(fn)
 	var walk func(b *ssa.BasicBlock, s st)
 	walk = func(b *ssa.BasicBlock, s st) {
 		if len(paths) >= max {
@@ -474,7 +475,40 @@ func EnumPaths(fn *ssa.Function, max int) (paths []*Path, overflow bool) {
 					ns.conds[k] = v
 				}
 				ns.conds[x.Cond] = val
-				ns.atoms = append(append([]Atom(nil), s.atoms...), NormAtom(x.Cond, val))
+				// merged variables (not loop-carried ones) are read as the value they have on this path: a condition on
+				// `err` after `if err == nil { err = g() }` is a condition on f's or on g's result, and a re-test of what the
+				// path has already decided is dropped
+				blocks := s.blocks
+				old := defaultResolver
+				defaultResolver = func(v ssa.Value) ssa.Value {
+					for k := 0; k < 6; k++ {
+						phi, ok := v.(*ssa.Phi)
+						if !ok || heads[phi.Block()] {
+							break
+						}
+						w := resolvePhi(phi, blocks)
+						if w == v {
+							break
+						}
+						v = w
+					}
+					if old != nil {
+						v = old(v)
+					}
+					return v
+				}
+				na := NormAtom(x.Cond, val)
+				defaultResolver = old
+				contra := false
+				for _, a := range s.atoms {
+					if contradicts(a, na) {
+						contra = true
+					}
+				}
+				if contra {
+					continue
+				}
+				ns.atoms = append(append([]Atom(nil), s.atoms...), na)
 				walk(b.Succs[i], ns)
 			}
 		default:
@@ -1094,6 +1128,17 @@ func contradicts(a, b Atom) bool {
 		return a.Rel == "==" && b.Rel == "!=" || a.Rel == "!=" && b.Rel == "==" || a.Rel == "true" && b.Rel == "false" || a.Rel == "false" && b.Rel == "true"
 	case a.L == b.R && a.R == b.L:
 		return a.Rel == "<" && b.Rel == "<=" || a.Rel == "<=" && b.Rel == "<"
+	}
+	return false
+}
+
+// hasBlocksOf: a call of fn has already been expanded on the path (its parameters are bound once per path, so a second call
+// stays opaque).
+func (p *Path) hasBlocksOf(fn *ssa.Function) bool {
+	for _, b := range p.Blocks {
+		if b.Parent() == fn {
+			return true
+		}
 	}
 	return false
 }
